@@ -855,6 +855,37 @@ def report_fails(ctx, prop, r, do_cache, mode, ops, shrink_it=True):
                         {'cache': do_cache, 'mode': mode, 'ops': small, 'kind': kind})
 
 
+def flush(ctx, runs):
+    """model side: one driver call for a batch of histories, then the line-by-line comparison"""
+    lines = []
+    for (r, _, _, _) in runs:
+        lines.extend(l for l, _, _ in r.lines)
+    outs = ctx.model(lines)
+    k = 0
+    for (r, do_cache, mode, origin) in runs:
+        ops = r.executed
+        ctx.case(tuple(json.dumps(o) for o in ops) + (do_cache, mode), nontrivial=interesting(ops),
+                 sample={'cache': do_cache, 'mode': mode, 'origin': origin, 'ops': ops[:12],
+                         'oracle_failures': [f[0] for f in r.fails]},
+                 kind='len%02d-%02d' % (len(ops) // 10 * 10, len(ops) // 10 * 10 + 9))
+        ctx.count('mode %s, cache=%s' % (mode, do_cache))
+        for nm, cnt in r.stats.items():
+            ctx.count(('op:' + nm) if ' ' not in nm else nm, cnt)
+        for nt in r.notes:
+            ctx.note(nt)
+        bad_reported = False
+        for (line, exp, stream) in r.lines:
+            if outs is not None:
+                ok = ctx.compare(stream, {'cache': do_cache, 'mode': mode, 'ops': ops, 'at': line} if not bad_reported else {'at': line},
+                                 outs[k], exp)
+                if not ok:
+                    bad_reported = True
+            k += 1
+        for (stream, m, im) in r.direct:
+            ctx.compare(stream, {'cache': do_cache, 'mode': mode, 'ops': ops}, m, im)
+    del runs[:]
+
+
 def drive(ctx, prop, weights, n_hist, max_ops, modes=('A', 'B')):
     rng = ctx.rng
     runs = []
@@ -875,41 +906,17 @@ def drive(ctx, prop, weights, n_hist, max_ops, modes=('A', 'B')):
             tries += 1
             r.apply(gen_op(rng, r, weights))
         runs.append((r, do_cache, mode, 'random'))
-        if r.fails:
+        if r.fails and len(ctx.oracle_fails) < 40:
             report_fails(ctx, prop, r, do_cache, mode, r.executed)
-    # model side: one driver call for everything
-    lines = []
-    for (r, _, _, _) in runs:
-        lines.extend(l for l, _, _ in r.lines)
-    outs = ctx.model(lines)
-    k = 0
-    for (r, do_cache, mode, origin) in runs:
-        ops = r.executed
-        ctx.case(tuple(json.dumps(o) for o in ops) + (do_cache, mode), nontrivial=interesting(ops),
-                 sample={'cache': do_cache, 'mode': mode, 'origin': origin, 'ops': ops[:12],
-                         'oracle_failures': [f[0] for f in r.fails]},
-                 kind='len%02d-%02d' % (len(ops) // 10 * 10, len(ops) // 10 * 10 + 9))
-        for nm, cnt in r.stats.items():
-            ctx.count('op:' + nm, cnt)
-        for nt in r.notes:
-            ctx.note(nt)
-        bad_reported = False
-        for (line, exp, stream) in r.lines:
-            if outs is not None:
-                ok = ctx.compare(stream, {'cache': do_cache, 'mode': mode, 'ops': ops, 'at': line} if not bad_reported else {'at': line},
-                                 outs[k], exp)
-                if not ok:
-                    bad_reported = True
-            k += 1
-        for (stream, m, im) in r.direct:
-            ctx.compare(stream, {'cache': do_cache, 'mode': mode, 'ops': ops}, m, im)
-    return runs
+        if len(runs) >= 250:
+            flush(ctx, runs)
+    flush(ctx, runs)
 
 
 def run(ctx):
     env(True)
     env(False)
-    n = ctx.budget(330, 9000)
+    n = ctx.budget(2500, 40000)
     drive(ctx, 'C05', W_C05, n, 30 if ctx.tier == 'quick' and not ctx.deep else 60)
 
 
